@@ -57,6 +57,8 @@ def gen(prop, stream, tier, avoid):
         spec = shapes.gen_shape(rng, kind="surface", max_size=6, max_degree=3, dim=3)
         if rng.chance(0.25) and "trims" not in avoid:
             spec["trim"] = _gen_trim(rng)
+        elif rng.chance(0.15):
+            spec["trim_tessellator_without_trims"] = True     # the trim-aware tessellator on a surface that has no trim
         objs.append(spec)
     use_cont = kn.chance(0.6)
     nops = kn.pick([3, 4, 5, 6, 8, 10, 14, 20] + ([30, 40] if tier == "thorough" else []))
@@ -430,6 +432,9 @@ def run(script, ctx):
                 c.evaluate(points=[list(p) for p in t["points"]])
             o.trims = [c]
             o.tessellator = g.tessellate.TrimTessellate()
+        elif spec.get("trim_tessellator_without_trims"):
+            o.tessellator = g.tessellate.TrimTessellate()
+            ctx.probe("trim_tessellator_without_trims")
         world.append(st)
     cont = g.multi.SurfaceContainer()
     cont.sample_size = 4
